@@ -944,7 +944,7 @@ func (x *Exec) pureCall(st *State, fi *FuncInfo, args []*Term, call *ast.CallExp
 	if v, ok := fi.Flags["unroll"]; ok {
 		fmt.Sscanf(v, "%d", &limit)
 	}
-	key := app.String()
+	key := app
 	if !app.Bound && !x.framed[key] {
 		x.framed[key] = true
 		x.specFrameAxioms(fi, name, app, sortedKeys(eff.Reads), fargs, args)
@@ -1067,6 +1067,19 @@ func (x *Exec) evalMarker(st *State, call *ast.CallExpr, name string) *Term {
 		return Implies(x.eval(st, call.Args[0]), x.eval(st, call.Args[1]))
 	case "__iff":
 		return Eq(x.eval(st, call.Args[0]), x.eval(st, call.Args[1]))
+	case "__entry":
+		if len(x.loopEntry) == 0 {
+			x.unsupported(call, "entry() outside a loop invariant")
+		}
+		tmp := x.loopEntry[len(x.loopEntry)-1].clone()
+		x.spec++
+		defer func() { x.spec-- }()
+		return x.eval(tmp, call.Args[0])
+	case "__rangeindex":
+		if len(x.rangeIdx) == 0 || x.rangeIdx[len(x.rangeIdx)-1] == nil {
+			x.unsupported(call, "rangeindex() outside a range-loop invariant")
+		}
+		return x.rangeIdx[len(x.rangeIdx)-1]
 	case "__samefn":
 		a := x.eval(st, call.Args[0])
 		b := x.eval(st, call.Args[1])
